@@ -234,7 +234,13 @@ def groupnormalization_20_21(node: ir.Node, op):
         bias_expand = op.Expand(bias_reshape_1, expand_sizes)
         bias_reshape_2 = op.Reshape(bias_expand, reshape_2_sizes)
 
-        return op.GroupNormalization(x, scale_reshape_2, bias_reshape_2, num_groups=num_groups)
+        # Keep the remaining attributes (epsilon) of the original node
+        other_attributes = {
+            name: attr for name, attr in node.attributes.items() if name != "num_groups"
+        }
+        return op.GroupNormalization(
+            x, scale_reshape_2, bias_reshape_2, num_groups=num_groups, **other_attributes
+        )
     return None
 
 
